@@ -110,3 +110,51 @@ package metric
 //@   loop 1 invariant i >= 1 && i <= len(itr.rows) && timeRange.Start == kFamilyTime(calc_kind(itr.intervalCalc), metricTs(itr.rows[0].m)) && timeRange.End == kFamilyEnd(calc_kind(itr.intervalCalc), timeRange.Start) && itr.groupFamilyTime == timeRange.Start && timeRange.Start <= metricTs(itr.rows[0].m) && metricTs(itr.rows[0].m) <= timeRange.End
 //@   loop 1 invariant forall(j, 1, i, timeRange.Start <= metricTs(itr.rows[j].m) && metricTs(itr.rows[j].m) <= timeRange.End)
 //@ end
+
+//@ # ---- building a row (C16): the tags hash that identifies the series (and routes the row) is computed over the
+//@ # de-duplicated, sorted tag list that is stored with the row ---------------------------------------------------
+//@ # xxKVs(tags, n): the hash XXHashOfKeyValues computes for a list of n tags (a function of the list's contents)
+//@ uf xxKVs(map[int]*protoMetricsV1.KeyValue, int) uint64
+//@ extern func github.com/lindb/lindb/series/tag.XXHashOfKeyValues
+//@   modifies kvs[*]
+//@   ensures result == xxKVs(old(contents(kvs)), len(kvs))
+//@   ensures old(forall(i, 1, len(kvs), kvs[i - 1] != nil && kvs[i] != nil && tag.strLess(kvs[i - 1].Key, kvs[i].Key))) ==> contents(kvs) == old(contents(kvs))
+//@ end
+//@ ghost field github.com/google/flatbuffers/go.Builder.kvsHash uint64
+//@ extern func github.com/lindb/common/proto/gen/v1/flatMetricsV1.MetricAddKvsHash
+//@   modifies builder.kvsHash
+//@   ensures builder.kvsHash == kvsHash
+//@ end
+//@ func BrokerRowProtoConverter.validateMetric
+//@   assume
+//@   modifies m.Tags, any(*protoMetricsV1.KeyValue).Key, any(*protoMetricsV1.KeyValue).Value, rc.enrichedTags
+//@   ensures result == nil ==> (forall(i, 0, len(m.Tags), m.Tags[i] != nil) && forall(i, 0, len(m.SimpleFields), m.SimpleFields[i] != nil))
+//@ end
+//@ func BrokerRowProtoConverter.hashOfName
+//@   assume
+//@   modifies nothing
+//@ end
+//@ func BrokerRowProtoConverter.MarshalProtoMetricV1
+//@   prop C16
+//@   arith math
+//@   requires rc.flatBuilder != nil && m != nil
+//@   modifies *
+//@   ensures[the_series_hash_covers_exactly_the_stored_tags] result1 == nil ==> rc.flatBuilder.kvsHash == xxKVs(contents(m.Tags), len(m.Tags))
+//@   ensures[stored_tags_are_sorted_without_a_repeated_key] result1 == nil ==> forall(i, 1, len(m.Tags), m.Tags[i - 1] != nil && m.Tags[i] != nil && tag.strLess(m.Tags[i - 1].Key, m.Tags[i].Key))
+//@   loop 1 invariant i >= 0 && i <= len(m.Tags) && len(rc.keys) == i && len(rc.values) == i
+//@   loop 1 invariant forall(i, 1, len(m.Tags), m.Tags[i - 1] != nil && m.Tags[i] != nil && tag.strLess(m.Tags[i - 1].Key, m.Tags[i].Key))
+//@   loop 2 invariant i >= 0 && i <= len(rc.keys) && len(rc.values) == len(rc.keys)
+//@   loop 2 invariant forall(i, 1, len(m.Tags), m.Tags[i - 1] != nil && m.Tags[i] != nil && tag.strLess(m.Tags[i - 1].Key, m.Tags[i].Key))
+//@   loop 3 invariant i >= 0 && i <= len(m.SimpleFields) && len(rc.fieldNames) == i
+//@   loop 3 invariant forall(i, 1, len(m.Tags), m.Tags[i - 1] != nil && m.Tags[i] != nil && tag.strLess(m.Tags[i - 1].Key, m.Tags[i].Key))
+//@   loop 4 invariant i >= 0 && i <= len(m.SimpleFields) && len(rc.fieldNames) == len(m.SimpleFields)
+//@   loop 4 invariant forall(i, 1, len(m.Tags), m.Tags[i - 1] != nil && m.Tags[i] != nil && tag.strLess(m.Tags[i - 1].Key, m.Tags[i].Key))
+//@   loop 5 invariant i >= -1 && i < len(rc.kvs)
+//@   loop 5 invariant forall(i, 1, len(m.Tags), m.Tags[i - 1] != nil && m.Tags[i] != nil && tag.strLess(m.Tags[i - 1].Key, m.Tags[i].Key))
+//@   loop 6 invariant i >= -1 && i < len(rc.fields)
+//@   loop 6 invariant forall(i, 1, len(m.Tags), m.Tags[i - 1] != nil && m.Tags[i] != nil && tag.strLess(m.Tags[i - 1].Key, m.Tags[i].Key))
+//@   loop 7 invariant i >= -1 && m.CompoundField != nil && i < len(m.CompoundField.Values)
+//@   loop 7 invariant forall(i, 1, len(m.Tags), m.Tags[i - 1] != nil && m.Tags[i] != nil && tag.strLess(m.Tags[i - 1].Key, m.Tags[i].Key))
+//@   loop 8 invariant i >= -1 && m.CompoundField != nil && i < len(m.CompoundField.ExplicitBounds)
+//@   loop 8 invariant forall(i, 1, len(m.Tags), m.Tags[i - 1] != nil && m.Tags[i] != nil && tag.strLess(m.Tags[i - 1].Key, m.Tags[i].Key))
+//@ end
